@@ -179,6 +179,7 @@ def run_update(ck_ob, mod, label):
         raise Broken("tinyjambu_hash_update: no whole-block loop found")
     n = 0
     style = {}
+    entry_posn, iter_posn, relies = [], [], [False]
     seen = {"A": set(), "B": set(), "iter": {h: 0 for h in tops}, "exit": {h: set() for h in tops}}
     # entry paths (from the function entry) first: they determine what drives each block loop
     paths = sorted(paths, key=lambda p_: 0 if [e_ for e_ in p_.events if e_[0] == "class" and e_[1] == "start"] else 1)
@@ -231,7 +232,9 @@ def run_update(ck_ob, mod, label):
                 ptrs, ints = tops[p.end[1]]
                 ini_c, ini_r = p.env.get(("init", ptrs[0].id)), p.env.get(("init", ints[0].id))
                 take = (16 - pz) if pz else 0
-                if pz == 0:
+                if pz == 0 and pev and ini_c is not None and not is_word(ini_c) and ini_c == Lf({IN: 1, 1: 16}):
+                    take = 16       # an empty buffer may be filled with the first 16 input bytes and compressed by the same code that tops up a partly filled one
+                if take == 0:
                     c("STREAM", not pev, "entry-nothing(posn=0)", "empty buffer: straight to the block loop", "a compression happens although the buffer is empty")
                 else:
                     blk = pend + [mode.inbyte(IN, i) for i in range(take)]
@@ -259,7 +262,7 @@ def run_update(ck_ob, mod, label):
                     style.setdefault(p.end[1], ("rem",))
                 c("STREAM", ini_c == want_c and ini_r == want_r, "entry-cursor(posn=%d)" % pz, "block loop starts at in + %d with inlen - %d bytes left" % (take, take),
                   "block loop starts with cursor %s / remaining %s, expected %s / %s: input bytes are skipped or re-read" % (ini_c, ini_r, want_c, want_r))
-                c("STREAM", posn_end == Lf.c(0), "entry-posn(posn=%d)" % pz, "buffer empty (position 0) when the block loop starts", "buffer position is %s when the block loop starts, expected 0" % posn_end)
+                entry_posn.append((pz, posn_end))
                 # the path must require inlen >= take
                 n += 2
             continue
@@ -290,7 +293,7 @@ def run_update(ck_ob, mod, label):
                 c("STREAM", okg, "block-guard", "a whole block is taken only when at least 16 bytes remain", "loop guard is not 'remaining >= 16'")
                 c("STREAM", bc == Lf({cur: 1, 1: 16}) and br == Lf({rem: 1, 1: -16}), "block-advance", "cursor += 16, remaining -= 16",
                   "after a block cursor=%s remaining=%s: input skipped or re-read" % (bc, br))
-            c("STREAM", posn_end == p.start_lfmem.get((ST, 48, 4)), "block-posn", "buffer position untouched by whole blocks", "buffer position changed inside the block loop")
+            iter_posn.append(posn_end == p.start_lfmem.get((ST, 48, 4)) or posn_end == Lf.c(0))
             n += 10
         elif p.end[0] == "ret" and style.get(h0, ("rem",))[0] == "count":
             from .aeadlib import residue_cases
@@ -309,15 +312,28 @@ def run_update(ck_ob, mod, label):
             c("STREAM", not pev, "tail-no-compress(%d)" % r, "fewer than 16 bytes left: nothing compressed", "compression with only %d bytes left" % r)
             okb = all(mem_byte(p, ST, 32 + i) == mode.inbyte(cur, i) for i in range(r))
             c("STREAM", okb, "tail-stash(%d)" % r, "the %d left-over bytes are stashed at the start of the buffer" % r, "left-over bytes are not stashed at buffer[0..%d)" % r)
-            want = Lf.c(r) if r else p.start_lfmem.get((ST, 48, 4))
-            c("STREAM", posn_end == want, "tail-posn(%d)" % r, "position = %d" % r, "buffer position becomes %s, expected %s" % (posn_end, want))
+            # the position is either set to the left-over length here, or - with nothing left over - left as the block loop keeps it,
+            # which then must be 0 from the loop's entry on (decided below, once all paths are known)
+            if r == 0 and posn_end != Lf.c(0) and posn_end == p.start_lfmem.get((ST, 48, 4)):
+                relies[0] = True
+                c("STREAM", True, "tail-posn(0)", "position left as the block loop keeps it (0: see entry-posn / block-posn)", "")
+            else:
+                c("STREAM", posn_end == Lf.c(r), "tail-posn(%d)" % r, "position = %d" % r, "buffer position becomes %s, expected %s" % (posn_end, Lf.c(r)))
             c("STREAM", mode.words_eq(words_at(p, ST, 0, 8), S0 + K0), "tail-chaining(%d)" % r, "chaining value untouched", "chaining value modified without a compression")
             n += 4
     wantA = {(pz, ln) for pz in range(1, 16) for ln in range(0, 16 - pz)}
     exact = {(pz, 16 - pz) for pz in range(1, 16)}
-    if seen["B"] != set(range(16)) or not (wantA <= seen["A"] <= wantA | exact) or any(seen["exit"][h] != set(range(16)) or seen["iter"][h] < 1 for h in tops):
+    # (an empty buffer may also take the short path - stash at position 0 without entering the block loop - which is the same machine)
+    empty_short = {(0, ln) for ln in range(16)}
+    if seen["B"] != set(range(16)) or not (wantA <= seen["A"] <= wantA | exact | empty_short) or any(seen["exit"][h] != set(range(16)) or seen["iter"][h] < 1 for h in tops):
         raise Broken("tinyjambu_hash_update: the path classes found do not partition (buffer position, length) the way the stream machine is analysed "
                      "(entry %d/16, short %d/%d extra %s, tails %s iterations %s): unrecognised shape" % (len(seen["B"]), len(seen["A"] & wantA), len(wantA), sorted(seen["A"] - wantA)[:3], [sorted(seen["exit"][h]) for h in tops], [seen["iter"][h] for h in tops]))
+    for pz, pe in entry_posn:
+        if relies[0]:
+            c("STREAM", pe == Lf.c(0), "entry-posn(posn=%d)" % pz, "buffer empty (position 0) when the block loop starts", "buffer position is %s when the block loop starts, expected 0 (the loop's exit with nothing left over does not set it)" % pe)
+        else:
+            c("STREAM", True, "entry-posn(posn=%d)" % pz, "the position is set on every path that leaves the block loop", "")
+    c("STREAM", not relies[0] or all(iter_posn), "block-posn", "buffer position untouched by whole blocks (or set on every exit)", "buffer position changed inside the block loop, and the exit with nothing left over does not set it")
     c("STREAM", True, "classes-entry", "all 16 buffer positions reach the block loop when enough input is given", "")
     c("STREAM", True, "classes-short", "all (position, short length) classes handled (%d)" % len(wantA), "")
     c("STREAM", True, "classes-loop", "whole-block iteration and all 16 tail lengths handled", "")
